@@ -37,6 +37,24 @@ fn main() {
         println!("selftest-survived {}", x & 1);
         std::process::exit(0);
     }
+    if prop == "sanitizer-selftest-race" {
+        // two threads write one plain word with no synchronisation: a ThreadSanitizer build must report a data race
+        static mut WORD: u64 = 0;
+        let hs: Vec<_> = (0..2u64)
+            .map(|k| {
+                std::thread::spawn(move || {
+                    for i in 0..1000u64 {
+                        unsafe { std::ptr::write_volatile(std::ptr::addr_of_mut!(WORD), i + k) };
+                    }
+                })
+            })
+            .collect();
+        for h in hs {
+            let _ = h.join();
+        }
+        println!("race-selftest-done {}", unsafe { std::ptr::read_volatile(std::ptr::addr_of!(WORD)) });
+        std::process::exit(0);
+    }
     if prop.starts_with("child-") {
         std::process::exit(props::child_main(&prop, &args[2..]));
     }
